@@ -322,6 +322,7 @@ func runC10(c *Ctx) {
 	c10Loops(c, p, cio, net)
 	noRetryOnTemporary(c, p, cio, "R3")
 	nilableLibraryFields(c, p, "R4")
+	lockPairing(c, p, "R9")
 
 	// ---- R4/R5 bounds and panics
 	n := boundsRule(c, net, "R4", "R5", nil)
